@@ -158,6 +158,87 @@ class FragGen:
             return ('or', [self.log(d - 1, 'or') for _ in range(rng.rint(2, 3))])
         return ('not', self.log(d - 1, 'not'))
 
+    def model_unbounded(self):
+        """refusal family: a tame model in which one integer variable compared somewhere is unbounded on one or both sides: under the
+        all-linear acceptance set the indicator -> big-M step has no finite M and the converter must refuse (cvt:bigM unset)"""
+        rng = self.rng
+        self.tame = True
+        self.make_vars()
+        a = rng.choice(self.ints)
+        self.inf = {a: rng.choice([(False, True), (True, False), (True, True)])}
+        lo, hi = self.vars[a][0], self.vars[a][1]
+        cmp1 = (rng.choice(['le', 'ge', 'lt', 'gt']), ('v', a), ('c', F(rng.rint(int(lo), int(hi)))))
+        others = [i for i in self.ints if i != a]
+        cmp2 = self.log(0)
+        cons, lcons, obj = [], [], None
+        shape = rng.below(3)
+        if shape == 0:
+            cons.append((('add', [('count', [cmp1, cmp2]), ('v', rng.choice(others or self.ints))]), F(rng.rint(0, 2)), None))
+        elif shape == 1:
+            cons.append((('add', [('ite', cmp1, self.num(0, True), self.num(0, True)), ('v', rng.choice(others or self.ints))]), None, F(rng.rint(0, 3))))
+        else:
+            lcons.append(('or', [cmp1, cmp2]))
+        if rng.chance(1, 2):
+            obj = (rng.choice(['min', 'max']), self.num(1, False))
+        return cons, lcons, obj
+
+    def model_levels(self):
+        """a continuous variable compared with two dyadic non-integer constants that share the integer part (1/4 and 3/4 ...): two different
+        entries of the converter's var==const map; at most one of them in a negative/mixed context (otherwise the converter refuses)"""
+        rng = self.rng
+        self.tame = True
+        base = rng.rint(-1, 1)
+        self.vars = [(F(base), F(base + 1), False), (F(0), F(3), True), (F(0), F(1), True)]
+        self.ints, self.conts = [1, 2], [0]
+        self.quarter_grid = True
+        fr = rng.choice([(1, 3), (1, 2), (2, 3), (3, 1), (2, 1)])
+        e1 = ('eq', ('v', 0), ('c', F(base) + F(fr[0], 4)))
+        e2 = ('eq', ('v', 0), ('c', F(base) + F(fr[1], 4)))
+        X = (rng.choice(['ge', 'le']), ('v', 1), ('c', F(rng.rint(1, 2))))
+        cons, lcons, obj = [], [], None
+        lcons.append(('or', [e1, e2]) if rng.chance(2, 3) else ('or', [e1, ('ge', ('v', 2), ('c', F(1)))]))
+        second = rng.below(3)
+        if second == 0:
+            lcons.append(('or', [('not', e2), X]))
+        elif second == 1:
+            cons.append((('add', [('ite', e2, ('v', 1), ('c', F(rng.rint(0, 3)))), ('v', 2)]), F(rng.rint(0, 1)), F(rng.rint(2, 4))))
+        else:
+            obj = (rng.choice(['min', 'max']), ('add', [('mul', F(rng.choice([4, -4, 2])), ('count', [e2])), ('v', 1)]))
+            cons.append((('add', [('v', 1), ('v', 2)]), None, F(rng.rint(2, 4))))
+        return cons, lcons, obj
+
+    def model_shared_nested(self):
+        """shapes of the open finding C01-result-var-usage-count: an or/and used twice through the expression map, once as a direct
+        argument of a parent of the same type (cvt:pre:unnest inlines it there and marks it unused) and once somewhere else"""
+        rng = self.rng
+        self.tame = True
+        self.make_vars()
+        if rng.chance(1, 4):
+            # variant (found by C01-oracle, round 6): a fixed-true `and` is removed and its variable set to 0..0 (FixUnusedDefinedVars)
+            # while a natively accepted Not still reads it: not(not(and(a,b))) as a logical row
+            lcons = [('not', ('not', ('and', [self.log(0), self.log(0)])))]
+            cons = [(('add', [self.num(1, True), ('v', rng.choice(self.ints))]), None, F(rng.rint(2, 5)))] if rng.chance(1, 2) else []
+            return cons, lcons, None
+        op = rng.choice(['or', 'and'])
+        inner = (op, [self.log(0), self.log(0)])
+        parent = (op, [self.log(0), inner] if rng.chance(1, 2) else [inner, self.log(0)])
+        other_use = rng.below(3)
+        cons, lcons, obj = [], [], None
+        if other_use == 0:
+            cons.append((('add', [('ite', inner, self.num(0, True), self.num(0, True)), ('v', rng.choice(self.ints))]), F(rng.rint(-1, 1)), F(rng.rint(2, 4))))
+        elif other_use == 1:
+            cons.append((('add', [('count', [inner, self.log(0)]), ('v', rng.choice(self.ints))]), F(rng.rint(0, 1)), None))
+        else:
+            lcons.append(('not', inner) if rng.chance(1, 2) else ('or', [('not', inner), self.log(0)]))
+        place = rng.below(3)
+        if place == 0:
+            obj = (rng.choice(['min', 'max']), ('count', [parent] + ([self.log(0)] if rng.chance(1, 2) else [])))
+        elif place == 1:
+            cons.append((('add', [('ite', parent, self.num(0, True), self.num(0, True)), ('v', rng.choice(self.ints))]), None, F(rng.rint(1, 4))))
+        else:
+            lcons.append(parent)
+        return cons, lcons, obj
+
     def model(self, nolcons=False):
         """nolcons: logical expressions only inside if-then-else / count conditions (no logical rows)"""
         rng = self.rng
@@ -184,10 +265,14 @@ def build(frag, cons, lcons, obj):
     """nlgen Model + grids + the `convert` op line"""
     m = Model()
     grids = []
-    for lb, ub, isint in frag.vars:
-        m.var(lb, ub, isint)
+    inf = getattr(frag, 'inf', {})      # variable -> (lower side infinite, upper side infinite); the grid keeps the finite window
+    for i, (lb, ub, isint) in enumerate(frag.vars):
+        li, ui = inf.get(i, (False, False))
+        m.var(None if li else lb, None if ui else ub, isint)
         if isint:
             grids.append([F(v) for v in range(int(lb), int(ub) + 1)])
+        elif getattr(frag, 'quarter_grid', False):
+            grids.append([lb + F(k, 4) for k in range(int((ub - lb) * 4) + 1)])
         else:
             g = sorted({lb, ub, (lb + ub) / 2, F(int(lb) + 1) if int(lb) + 1 < ub else ub})
             grids.append(g)
@@ -197,7 +282,8 @@ def build(frag, cons, lcons, obj):
         m.lcon(to_nl(l))
     if obj:
         m.obj(obj[0], nl=to_nl(obj[1]))
-    B = ';'.join('%d:%s:%s:%d' % (i, q2s(lb), q2s(ub), int(isint)) for i, (lb, ub, isint) in enumerate(frag.vars))
+    B = ';'.join('%d:%s:%s:%d' % (i, '-inf' if inf.get(i, (0, 0))[0] else q2s(lb), 'inf' if inf.get(i, (0, 0))[1] else q2s(ub), int(isint))
+                 for i, (lb, ub, isint) in enumerate(frag.vars))
 
     def bnd(x, lower):
         return ('-inf' if lower else 'inf') if x is None else q2s(x)
@@ -272,6 +358,8 @@ def real_side(exe, stub, n0, acc, opts):
             kind, fields = t[3], t[4:]
             defs.append((int(t[1]), canon_def(';'.join([t[1], t[2], kind] + fields))))
             defined.add(int(t[1]))
+    # fixed variables without a definition: MakeFixedVar constants (continuous) and the results of removed definitions (and fixed true /
+    # or fixed false: FixUnusedDefinedVars leaves 0..0, integer); both appear as `res;Const;value` (the type is compared in |V|)
     consts = {i: v[0] for i, v in enumerate(vsA) if i >= n0 and i not in defined and v[0] is not None and v[0] == v[1]}
     out['D'] = [t for _, t in sorted(defs)]
     out['consts'] = consts
@@ -306,12 +394,14 @@ def parse_conv(ans):
     if not m:
         return {'kind': 'bad', 'what': ans[:200]}
     rest = ans[len(head):]
+    mw = re.search(r' why=(\S*)', head)
+    why = [w for w in (mw.group(1).split(',') if mw else []) if w]
     sec = {}
     for key, nxt in (('|V|', '|D|'), ('|D|', '|R|'), ('|R|', '|O|'), ('|O|', '|C|'), ('|C|', None)):
         i = rest.index(key) + len(key)
         j = rest.index(nxt) if nxt else len(rest)
         sec[key] = rest[i:j].strip()
-    return {'kind': 'conv', 'N': int(m.group(1)), 'M': int(m.group(2)), 'shortcut': m.group(3) == '1', 'infragment': m.group(4) != '0' and m.group(5) != '0',
+    return {'kind': 'conv', 'N': int(m.group(1)), 'M': int(m.group(2)), 'shortcut': m.group(3) == '1', 'infragment': m.group(4) != '0' and m.group(5) != '0', 'why': why,
             'V': [v for v in sec['|V|'].split(';') if v], 'D': [canon_def(d) for d in sec['|D|'].split('|') if d],
             'R': [r for r in sec['|R|'].split('|') if r], 'O': sec['|O|'],
             'C': sorted(canon_row(c.strip()) for c in sec['|C|'].split(' ; ') if c.strip())}
@@ -384,83 +474,162 @@ def diff_class(c, r, diffs):
     return 'delivered:objective'
 
 
-def oracle_says(m, grids, rd, budget_s=8.0):
-    """exact projection oracle of the end-to-end stage on the REAL delivered model: 'ok' | 'fail:<dir>' | 'na:<why>'"""
+def oracle_full(m, grids, rd, budget_s=8.0):
+    """exact projection oracle of the end-to-end stage on the REAL delivered model: ('ok' | 'fail:<dir>' | 'na:<why>', first failure or None)"""
     import c01
     cl = c01.classify_run(rd)
     if cl[0] != 'delivered':
-        return 'na:' + cl[0]
+        return 'na:' + cl[0], None
     D = cl[1]
     if D.unsupported or D.inexact:
-        return 'na:unsupported'
+        return 'na:unsupported', None
     res = c01.check_equiv(m, grids, D, {'eps': EPS_Q, 'sos': 0}, budget_s=budget_s)
     if res['failures']:
-        return 'fail:' + res['failures'][0]['dir']
-    return 'ok'
+        return 'fail:' + res['failures'][0]['dir'], res['failures'][0]
+    return 'ok', None
+
+
+def oracle_says(m, grids, rd, budget_s=8.0):
+    return oracle_full(m, grids, rd, budget_s)[0]
+
+
+# enforced = (model, acceptance set) pairs on which the reference converter claims to mirror the real one (shortcut=0, inside its
+# fragment predicate) or refuses.  Floor on enforced/pairs: what the unchanged tree gives (see design notes, round 6) minus a margin;
+# flagging more inputs as shortcut on the Lean side, or a generator drifting out of the fragment, falls below it.
+ENFORCED_FLOOR = 0.43
+# (was pending on the Lean side until 032a60f: resBnd of min/max with an infinite bound) switch kept for bisecting: when False the
+# native half of the refusal family is compared and counted like a flagged pair
+REFUSAL_FAMILY_NATIVE_ENFORCED = True
+FAMILIES = ('regular', 'refusal', 'shared-nested', 'levels')
+
+
+def e2e_signature(exe, m, grids, acc, wd, f0):
+    """the end-to-end stage's own diagnosis (counterfactual repair on the reformulation graph) of a failing model: the signature that
+    known_findings.json matches.  -> (sig or None, info, case)"""
+    import c01, c01gen
+    case = {'model': c01gen.model_to_json(m, grids), 'cfg': {'accept': list(acc), 'options': [EPS_OPT], 'quadobj': 1, 'eps': EPS_Q, 'sos': 0},
+            'id': 'refconv', 'profile': 'refconv'}
+    wdir = os.path.join(wd, 'e2e')
+    os.makedirs(wdir, exist_ok=True)
+    try:
+        sig, info = c01.diagnose(exe, case, wdir, f0)
+        return sig, c01._jsonable(info), case
+    except Exception as ex:
+        return None, {'diagnose_exception': repr(ex)[:200]}, case
 
 
 def run_refconv(ck, drv, exe, n_models, seed_base, wd, log=None):
-    """compare `convert` with the real converter on generated fragment models x {native, linear} until n_models comparisons that the
-    reference converter does not flag as shortcut are done (at most 5 * n_models models drawn).
-    -> stats dict; violations are reported through ck by the caller from stats['violations']"""
+    """compare `convert` with the real converter on exactly n_models generated fragment models x {native, linear}.
+    Families: regular (two strata), refusal (an unbounded compared integer variable), shared-nested (shapes of C01-result-var-usage-count).
+    -> stats dict with 'violations': [{'sig','what','replay','found'}]"""
     import collections
-    st = {'models': 0, 'drawn': 0, 'compared': 0, 'agree': 0, 'shortcut': 0, 'outside': 0, 'ref_refusal': 0, 'real_refusal': 0,
-          'refusal_agree': 0, 'disagree': 0, 'classes': collections.Counter(), 'examples': {}, 'violations': [], 'drift': 0,
-          'by_acc': {'native': [0, 0], 'linear': [0, 0]}, 'bad': 0, 'outside_fragment_predicate': 0, 'skipped_by_acc': {'native': 0, 'linear': 0}, 'flagged_agree': 0, 'def_kinds': {}, 'with_aux_vars': 0, 'rows_compared': 0,
-          # strata: models without logical rows (logical expressions only under ite/count) / models with logical rows
-          'by_stratum': {'no-logical-rows': [0, 0], 'logical-rows': [0, 0]}}
+    import c01
+    st = {'models': 0, 'pairs': 0, 'enforced': 0, 'compared': 0, 'agree': 0, 'shortcut': 0, 'flagged_agree': 0, 'flagged_differ': 0,
+          'flagged_oracle_runs': 0, 'flagged_oracle_fail': 0, 'flagged_fail_sigs': {}, 'flagged_why': {}, 'outside': 0, 'outside_fragment_predicate': 0, 'bad': 0,
+          'ref_refusal': 0, 'real_refusal': 0, 'refusal_agree': 0, 'disagree': 0, 'drift': 0,
+          'classes': collections.Counter(), 'examples': {}, 'violations': [],
+          'by_acc': {'native': [0, 0], 'linear': [0, 0]},
+          'by_stratum': {'no-logical-rows': [0, 0], 'logical-rows': [0, 0]},
+          'by_family': {f: {'pairs': 0, 'enforced': 0, 'agree': 0, 'flagged': 0, 'oracle_fail': 0} for f in FAMILIES},
+          'def_kinds': {}, 'with_aux_vars': 0, 'rows_compared': 0, 'real_refusal_kinds': {}, 'enforced_floor': ENFORCED_FLOOR}
     stub = os.path.join(wd, 'rc')
-    k = 0
-    while st['compared'] + st['refusal_agree'] < n_models and st['drawn'] < 5 * n_models:
+    oracle_cap = 6 if ck.tier == 'quick' else 150       # flagged-and-different pairs checked with the exact oracle (regular family)
+    sig_cap = 60 if ck.tier == 'quick' else 600          # failing models passed to the end-to-end diagnosis
+    nsig = 0
+
+    def viol(sig, what, replay, found):
+        st['violations'].append({'sig': sig, 'what': what, 'replay': replay, 'found': found})
+
+    for k in range(n_models):
         rng = Rng(seed_base * 100003 + k)
-        k += 1
-        st['drawn'] += 1
-        g = FragGen(rng, tame=(k % 4 != 0))
-        cons, lcons, obj = g.model(nolcons=(k % 2 == 0))
+        fam = 'refusal' if k % 10 == 8 else ('shared-nested' if k % 15 == 14 else ('levels' if k % 15 == 7 else 'regular'))
+        g = FragGen(rng, tame=(k % 4 != 3))
+        if fam == 'refusal':
+            cons, lcons, obj = g.model_unbounded()
+        elif fam == 'shared-nested':
+            cons, lcons, obj = g.model_shared_nested()
+        elif fam == 'levels':
+            cons, lcons, obj = g.model_levels()
+        else:
+            cons, lcons, obj = g.model(nolcons=(k % 2 == 0))
         stratum = 'logical-rows' if lcons else 'no-logical-rows'
         m, grids, line = build(g, cons, lcons, obj)
-        answers = {}
-        skips = {}
-        for accn in ('native', 'linear'):
-            c = parse_conv(drv.ask('%s eps=%s acc=%s' % (line, EPS_Q, accn)))
-            answers[accn] = c
-            if c['kind'] == 'outside':
-                skips[accn] = 'outside'
-            elif c['kind'] in ('bad', 'bad-op'):
-                skips[accn] = 'bad'
-                st['violations'].append(('refconv-driver', 'drv_c01 convert answered %r on: %s acc=%s' % (c.get('what'), line, accn), {}))
-            elif c['kind'] == 'conv' and not c['infragment']:
-                skips[accn] = 'outside_fragment_predicate'
-        for accn, why in skips.items():
-            st[why] += 1
-            st['skipped_by_acc'][accn] += 1
-        if len(skips) == 2:
-            continue
         st['models'] += 1
         m.write(stub, names=False)
         if m.perm != list(range(len(m.vars))):
-            st['violations'].append(('refconv-harness', 'nlgen permuted the variables of a fragment model: ' + line, {}))
+            viol('refconv-harness', 'nlgen permuted the variables of a fragment model: ' + line, {}, False)
             continue
         for accn, acc in (('native', NATIVE), ('linear', LINEAR)):
-            if accn in skips:
+            st['pairs'] += 1
+            fs = st['by_family'][fam]
+            fs['pairs'] += 1
+            opline = '%s eps=%s acc=%s' % (line, EPS_Q, accn)
+            c = parse_conv(drv.ask(opline))
+            if c['kind'] in ('bad', 'bad-op'):
+                st['bad'] += 1
+                viol('refconv-driver', 'drv_c01 convert answered %r on: %s' % (c.get('what'), opline), {'line': opline}, False)
                 continue
-            c = answers[accn]
-            flagged = c['kind'] == 'conv' and c['shortcut']     # the reference converter says: the real one takes a path I do not mirror
-            if flagged:                                          # compared all the same, reported separately, never a violation
-                st['shortcut'] += 1
-                r = real_side(exe, stub, len(m.vars), acc, [EPS_OPT])
-                okr = r['okA'] and r['okD']
-                st['flagged_agree'] += bool(okr and not compare(c, r))
+            if c['kind'] == 'outside':
+                st['outside'] += 1
+                continue
+            if c['kind'] == 'conv' and not c['infragment']:
+                st['outside_fragment_predicate'] += 1
                 continue
             r = real_side(exe, stub, len(m.vars), acc, [EPS_OPT])
             real_ref = (not r['okA']) or (not r['okD'])
+            real_kind = None
+            if real_ref:
+                st['real_refusal'] += 1
+                cl = c01.classify_run(r['rd'] if r['okA'] else r['ra'])
+                real_kind = cl[1] if cl[0] == 'refused' else cl[0]
+                st['real_refusal_kinds'][real_kind] = st['real_refusal_kinds'].get(real_kind, 0) + 1
+            flagged = c['kind'] == 'conv' and (c['shortcut'] or (fam == 'refusal' and accn == 'native' and not REFUSAL_FAMILY_NATIVE_ENFORCED))
+            ex = {'line': opline, 'family': fam}
+            if flagged:
+                # the reference converter says the real one takes a path it does not mirror: compared and counted, not enforced -
+                # but the property itself is still checked on (a sample of) the pairs that differ
+                st['shortcut'] += 1
+                fs['flagged'] += 1
+                for w in (c.get('why') or ['harness-gate' if not c.get('shortcut') else 'unspecified']):
+                    st['flagged_why'][w] = st['flagged_why'].get(w, 0) + 1
+                same = (not real_ref) and not compare(c, r)
+                st['flagged_agree'] += same
+                if same and fam not in ('shared-nested', 'levels'):
+                    continue
+                st['flagged_differ'] += not same
+                if real_ref or not (fam in ('shared-nested', 'levels') or st['flagged_oracle_runs'] < oracle_cap):
+                    continue
+                st['flagged_oracle_runs'] += 1
+                verdict, f0 = oracle_full(m, grids, r['rd'], budget_s=4.0)
+                if not verdict.startswith('fail'):
+                    continue
+                st['flagged_oracle_fail'] += 1
+                fs['oracle_fail'] += 1
+                sig, what, rep = 'refconv-property:flagged:' + verdict[5:], 'real delivered model fails the exact oracle (%s) on %s' % (verdict, opline), ex
+                if nsig < sig_cap:
+                    nsig += 1
+                    dsig, info, case = e2e_signature(exe, m, grids, acc, wd, f0)
+                    if dsig:
+                        sig = dsig
+                        what = '%s at point %s: %s [fragment model of the reference-converter stream, family %s, flagged shortcut by the reference: %s]' % (
+                            f0.get('dir'), c01._jsonable(f0.get('point')), f0.get('what'), fam, opline)
+                        rep = {'line': opline, 'family': fam, 'options': case['cfg']['options'], 'accept': case['cfg']['accept'],
+                               'point': c01._jsonable(f0.get('point')), 'direction': f0.get('dir'), 'aux_witness': c01._jsonable(f0.get('witness')),
+                               'diagnosis': info, 'case': case, 'how': 'python3 checks/c01.py --replay <this file>'}
+                st['flagged_fail_sigs'][sig] = st['flagged_fail_sigs'].get(sig, 0) + 1
+                viol(sig, what, rep, True)
+                continue
+            # ---- enforced pair
+            st['enforced'] += 1
+            fs['enforced'] += 1
             if c['kind'] == 'refusal' or real_ref:
                 st['ref_refusal'] += c['kind'] == 'refusal'
-                st['real_refusal'] += real_ref
-                if c['kind'] == 'refusal' and real_ref:
+                want = {'refusal IndicatorInfBound': 'bigM-unbounded', 'refusal infeasible': 'infeasible-claimed'}.get(c.get('what'))
+                if c['kind'] == 'refusal' and real_ref and (want is None or real_kind == want):
                     st['refusal_agree'] += 1
+                    fs['agree'] += 1
                     continue
-                cls = 'refusal:only-%s' % ('reference' if c['kind'] == 'refusal' else 'real')
+                cls = 'refusal:%s/%s' % (c.get('what', 'delivers') if c['kind'] == 'refusal' else 'delivers', real_kind or 'delivers')
                 diffs = ['refusal']
             else:
                 st['compared'] += 1
@@ -474,32 +643,53 @@ def run_refconv(ck, drv, exe, n_models, seed_base, wd, log=None):
                 diffs = compare(c, r)
                 if not diffs:
                     st['agree'] += 1
+                    fs['agree'] += 1
                     st['by_acc'][accn][0] += 1
                     st['by_stratum'][stratum][0] += 1
                     continue
                 cls = diff_class(c, r, diffs)
             st['disagree'] += 1
-            verdict = oracle_says(m, grids, r['rd']) if r.get('okD') else 'na:real-refusal'
-            key = '%s|%s|%s|oracle=%s' % (accn, stratum, cls, verdict.split(':')[0])
+            verdict, f0 = oracle_full(m, grids, r['rd']) if r.get('okD') else ('na:real-refusal', None)
+            key = '%s|%s|%s|%s|oracle=%s' % (accn, fam, stratum, cls, verdict.split(':')[0])
             st['classes'][key] += 1
-            ex = {'line': '%s eps=%s acc=%s' % (line, EPS_Q, accn), 'diffs': diffs, 'oracle': verdict}
+            ex.update({'diffs': diffs, 'oracle': verdict})
             for sct in diffs:
-                if sct in ('D',):
+                if sct == 'D':
                     ex['D_ref'], ex['D_real'] = strip_const_ctx(c['D']), merge_defs(r)
                 elif sct in ('V', 'C', 'O', 'N', 'M'):
                     ex[sct + '_ref'], ex[sct + '_real'] = c.get(sct), r.get(sct)
             st['examples'].setdefault(key, ex)
             if verdict.startswith('fail'):
-                # the real delivered model is wrong on this input: property failure (the end-to-end stage reports it with its own
-                # minimisation; here it is recorded with the reference converter's expected rows)
-                st['violations'].append(('refconv-property:' + cls, 'real delivered model fails the exact oracle (%s) and differs from the '
-                                         'reference converter `convert` in %s: %s' % (verdict, '+'.join(diffs), ex['line']), ex))
+                # the real delivered model is wrong on an input the proved reference converter claims to mirror: property failure
+                sig, what, rep = 'refconv-property:' + cls, ('real delivered model fails the exact oracle (%s) and differs from the reference '
+                                                             'converter `convert` in %s: %s' % (verdict, '+'.join(diffs), opline)), ex
+                if nsig < sig_cap:
+                    nsig += 1
+                    dsig, info, case = e2e_signature(exe, m, grids, acc, wd, f0)
+                    if dsig:
+                        sig = dsig
+                        what = '%s at point %s: %s [enforced pair of the reference-converter stream, differs in %s: %s]' % (
+                            f0.get('dir'), c01._jsonable(f0.get('point')), f0.get('what'), '+'.join(diffs), opline)
+                        rep = dict(ex, options=case['cfg']['options'], accept=case['cfg']['accept'], point=c01._jsonable(f0.get('point')),
+                                   direction=f0.get('dir'), aux_witness=c01._jsonable(f0.get('witness')), diagnosis=info, case=case)
+                viol(sig, what, rep, True)
             else:
-                # the reference converter did not flag the input, the real converter is right by the oracle: the tie between the proved
-                # reference converter and the code is broken on this input (model drift: the model has to be repaired)
+                # oracle passes (or not applicable): the proved model no longer describes the code on this input (drift: repair the model)
                 st['drift'] += 1
-                st['violations'].append(('refconv-differs:' + cls, 'the reference converter `convert` (C01_convert_equiv_*) and the real converter '
-                                         'disagree in %s on an input the reference does not flag as shortcut (oracle on the real delivered '
-                                         'model: %s): %s' % ('+'.join(diffs), verdict, ex['line']), ex))
+                viol('refconv-differs:' + cls, 'the reference converter `convert` (C01_convert_equiv) and the real converter disagree in %s on an '
+                     'input the reference does not flag as shortcut (oracle on the real delivered model: %s): %s' % ('+'.join(diffs), verdict, opline),
+                     ex, False)
     st['classes'] = dict(st['classes'])
+    st['enforced_fraction'] = round(st['enforced'] / max(1, st['pairs']), 4)
+    if st['models'] != n_models or st['pairs'] != 2 * n_models:
+        viol('refconv:too-few-enforced', 'the reference-converter stream handled %d models / %d pairs instead of the %d / %d asked for'
+             % (st['models'], st['pairs'], n_models, 2 * n_models), {}, False)
+    if st['enforced'] < ENFORCED_FLOOR * st['pairs']:
+        viol('refconv:too-few-enforced', 'only %d of %d (model, acceptance set) pairs (%.1f%%) are enforced comparisons (reference converter not '
+             'flagging a shortcut and inside its fragment predicate); floor %.0f%%: the tie between C01_convert_equiv and the real converter '
+             'would be hollow' % (st['enforced'], st['pairs'], 100.0 * st['enforced'] / max(1, st['pairs']), 100 * ENFORCED_FLOOR),
+             {'shortcut': st['shortcut'], 'outside_fragment_predicate': st['outside_fragment_predicate'], 'by_family': st['by_family']}, False)
+    if st['ref_refusal'] == 0 or st['refusal_agree'] == 0:
+        viol('refconv:refusal-path-not-exercised', 'no refusal of the reference converter was compared with a refusal of the real converter '
+             '(ref_refusal=%d, refusal_agree=%d)' % (st['ref_refusal'], st['refusal_agree']), {}, False)
     return st
